@@ -137,17 +137,18 @@ int main() {
     { auto p = std::make_unique<int>(1); int r = _e2(std::move(p), 5); chk(r == 5 && p != nullptr, "_e2 consumed (moved from) the argument it skips"); }
     chk(construct<W, 2>{}(7, 8, 9).from == 8 && construct<W>{}(7, 8).from == 7, "construct<T, I> does not build T from the I-th argument");
     chk(val(42)(1, 2, 3) == 42 && create<int>{}(5, 6) == 0, "val / create depend on their arguments");
-    for (int variant = 0; variant < 4; ++variant) {
+    for (int variant = 0; variant < 5; ++variant) {
         std::vector<Tr> c; c.reserve(8); c.emplace_back(1); copies = 0;
         std::vector<Tr> r;
         if (variant == 0) r = emplace_back<1, 2>{}(std::move(c), Tr(2));                 // container first
         if (variant == 1) r = emplace_back<3, 1>{}(Tr(2), 0, std::move(c), 0);           // element first, one skipped in between
         if (variant == 2) r = push_back<1, 3>{}(std::move(c), 0, Tr(2), 0);
         if (variant == 3) r = push_back<2, 1>{}(Tr(2), std::move(c));
+        if (variant == 4) r = push_back<3, 1>{}(Tr(2), Tr(9), std::move(c));             // element first, one argument in between
         bool moved_only = variant >= 2 ? copies <= 1 : copies == 0;                       // push_back may copy the element once, emplace_back must move it
         chk(r.size() == 2 && r[0].v == 1 && r[1].v == 2 && moved_only && c.empty(),
             variant == 0 ? "emplace_back<1,2>: wrong result or the element/container was copied" : variant == 1 ? "emplace_back<3,1>: wrong result or the element/container was copied"
-            : variant == 2 ? "push_back<1,3>: wrong result or the container was copied" : "push_back<2,1>: wrong result or the container was copied");
+            : variant == 2 ? "push_back<1,3>: wrong result or the container was copied" : variant == 3 ? "push_back<2,1>: wrong result or the container was copied" : "push_back<3,1>: wrong element appended or the container was copied");
     }
     return bad ? 1 : 0;
 }"""
